@@ -4,6 +4,7 @@ M1 == -1
 M2 == -2
 M3 == -3
 M4 == -4
+M5 == -5
 M12 == -12
 M20 == -20
 Z0 == 0
